@@ -572,9 +572,9 @@ class Interp:
         if all(isinstance(v, ObjV) for v in vals) and len({v.cls for v in vals}) == 1:
             fields = {}
             for fname in set().union(*[set(v.fields) for v in vals]):
-                fv = [v.fields.get(fname, NONE) for v in vals]
+                fv = [v.fields.get(fname, Form.sym(f"{v.name}.{fname}") if v.name else NONE) for v in vals]
                 fields[fname] = self._join_vals(node, f"{name}.{fname}", fv)
-            return ObjV(vals[0].cls, fields, vals[0].origin)
+            return ObjV(vals[0].cls, fields, vals[0].origin, vals[0].name)
         if all(isinstance(v, DictV) for v in vals):
             keys = []
             for v in vals:
@@ -853,6 +853,8 @@ class Interp:
                 return None
         if isinstance(l, ClassRef) and isinstance(r, ClassRef):
             return l.name == r.name
+        if (isinstance(l, ClassRef) and isinstance(r, Const) and r.v is None) or (isinstance(r, ClassRef) and isinstance(l, Const) and l.v is None):
+            return False
         if isinstance(l, ClassRef) and isinstance(r, Form) or isinstance(r, ClassRef) and isinstance(l, Form):
             cr, f = (l, r) if isinstance(l, ClassRef) else (r, l)
             # self.__class__ == electrical_signal with an assumed dynamic class
@@ -878,6 +880,10 @@ class Interp:
         return _MISSING
 
     def _in(self, l, r, st):
+        if isinstance(l, ClassRef) and isinstance(r, TupleV) and all(isinstance(i, ClassRef) for i in r.items):
+            return any(i.name == l.name for i in r.items)
+        if isinstance(l, Const) and l.v is None and isinstance(r, TupleV) and all(isinstance(i, ClassRef) for i in r.items):
+            return False
         lv = self._const_of(l, st)
         if isinstance(r, TupleV):
             rvs = [self._const_of(i, st) for i in r.items]
@@ -1308,6 +1314,8 @@ class Interp:
                     cur = self.eval(nxt, st, fi, depth)
                     continue
             rest = self.eval(nxt, st, fi, depth)
+            if vkey(cur) == vkey(rest):
+                continue   # `a or a` / `a and a`
             cur = mk_fn("or" if isinstance(n.op, ast.Or) else "and", [as_value(cur), as_value(rest)])
         return cur
 
